@@ -171,6 +171,10 @@ def random_file(r, maxlines, opt="none", bad_rate=0.0, single_line=False, commen
             if g.cls == "NONBLANK" and (prev is None or prev["t"] not in ("entry", "cont")):
                 cand.append(("key text", "ECONF_MISSING_DELIMITER"))
             raw, code = r.choice(cand)
+            # text after the header of the section that is OPEN at this point (a header that re-opens the current section
+            # is a header like any other)
+            if used_secs and r.random() < 0.3:
+                raw, code = "[%s]%s" % (used_secs[-1], r.choice([" oops", "x", " = 1"])), "ECONF_TEXT_AFTER_SECTION"
             if any(c in raw for c in C):
                 raw, code = "[abc", "ECONF_MISSING_BRACKET"
             l = line("bad", key=code, val=raw)
